@@ -86,4 +86,24 @@ theorem steps_bounded (S : Sys σ α) (μ : σ → Nat) (P : α → Bool)
       | true => have := hdec _ _ _ hact hp; simp [List.filter, hp]; omega
       | false => have := hmono _ _ _ hact hp; simp [List.filter, hp]; omega
 
+/-- the same with reachability available in the side conditions -/
+theorem steps_bounded_reach (S : Sys σ α) (μ : σ → Nat) (P : α → Bool)
+    (hdec : ∀ s a s', Reach S s → S.act s a = some s' → P a = true → μ s' < μ s)
+    (hmono : ∀ s a s', Reach S s → S.act s a = some s' → P a = false → μ s' ≤ μ s) :
+    ∀ (run : List α) (s s' : σ), Reach S s → exec S s run = some s' → (run.filter P).length + μ s' ≤ μ s := by
+  intro run
+  induction run with
+  | nil => intro s s' _ h; simp [exec] at h; subst h; simp
+  | cons a rest ih =>
+    intro s s' hr h
+    simp only [exec] at h
+    cases hact : S.act s a with
+    | none => simp [hact] at h
+    | some s1 =>
+      simp [hact] at h
+      have := ih s1 s' (Reach.step hr hact) h
+      cases hp : P a with
+      | true => have := hdec _ _ _ hr hact hp; simp [List.filter, hp]; omega
+      | false => have := hmono _ _ _ hr hact hp; simp [List.filter, hp]; omega
+
 end Wm.Lts
